@@ -33,6 +33,16 @@ var (
 	zzC10Funcs = map[string]uintptr{}
 )
 
+type c10ExposedFn struct {
+	fn interface{}
+	a  uintptr
+}
+
+var (
+	c10Exposed   []c10ExposedFn
+	c10ExposedMu sync.Mutex
+)
+
 func c10ErrClass(err error) string {
 	m := err.Error()
 	switch {
@@ -128,6 +138,19 @@ func c10Query(q string) (obs, rt string) {
 			return c10ErrClass(err), "-"
 		}
 		a := reflect.ValueOf(fn).Pointer()
+		// function values handed out earlier must keep pointing where they pointed (each owns its code-pointer cell)
+		c10ExposedMu.Lock()
+		for _, e := range c10Exposed {
+			if reflect.ValueOf(e.fn).Pointer() != e.a {
+				c10ExposedMu.Unlock()
+				return "exposed-value-changed", "-"
+			}
+		}
+		if len(c10Exposed) >= 8 {
+			c10Exposed = c10Exposed[1:]
+		}
+		c10Exposed = append(c10Exposed, c10ExposedFn{fn, a})
+		c10ExposedMu.Unlock()
 		return fmt.Sprintf("ok:%#x", a), vh.FuncTruth(name, a, zzC10Funcs)
 	}
 	return "bad-query", "-"
